@@ -188,6 +188,9 @@ func step(state, input, output interface{}) []interface{} {
 			return []interface{}{0}
 		}
 		return []interface{}{s, 0}
+	case "putparent":
+		// an upload to the name of the key's directory is about another key: whatever its outcome, this key keeps its state
+		return []interface{}{s}
 	default: // get, head
 		switch {
 		case out.Status == 200:
@@ -246,6 +249,7 @@ func inst(noOTmp, versioned bool, proc int) (*gw.InProc, error) {
 var caseNo int
 
 const key = "dir/obj"
+const parentKey = "dir" // the name of the key's directory, taken as a key
 
 func doWrite(cl *s3c.Client, bkt string, kind string, w int) (*s3c.Resp, error) {
 	path := "/" + bkt + "/" + key
@@ -348,7 +352,7 @@ func execA(c caseA) (hist []histOp, overlap bool, err error) {
 	path := "/" + bkt + "/" + key
 	s := sched.New(len(c.Ops))
 	s.Filter = func(_ int, point string, args []string) bool {
-		return len(args) >= 2 && args[0] == bkt && args[1] == key
+		return len(args) >= 2 && args[0] == bkt && (args[1] == key || args[1] == parentKey)
 	}
 	if len(c.Stall) > 0 {
 		s.Starve, s.StarveFrom = map[int]int{}, map[int]int{}
@@ -382,6 +386,8 @@ func execA(c caseA) (hist []histOp, overlap bool, err error) {
 			}
 		case "delete":
 			r, err = cl.Call("DELETE", path, nil, nil, nil)
+		case "putparent":
+			r, err = cl.Call("PUT", "/"+bkt+"/"+parentKey, nil, nil, []byte("an object named like the key's directory"))
 		case "get":
 			r, err = cl.Call("GET", path, nil, nil, nil)
 		case "getsum":
@@ -415,6 +421,20 @@ func execA(c caseA) (hist []histOp, overlap bool, err error) {
 		}
 		hist = append(hist, histOp{Op: c.Ops[i], Call: r.Call, Return: r.Return, Out: rt.out.String(), Points: r.Points})
 		pops = append(pops, porcupine.Operation{ClientId: i, Input: histIn{c.Ops[i].Kind, c.Ops[i].W}, Call: r.Call, Output: rt.out, Return: r.Return})
+	}
+	// when everything has returned the key is read once more: what the race left behind belongs to the history too
+	var last int64
+	for _, r := range res {
+		last = max(last, r.Return)
+	}
+	if fr, ferr := cls[0].Call("GET", path, nil, nil, nil); ferr == nil {
+		fo := attribute(fr, false)
+		fop := op{Kind: "get"}
+		hist = append(hist, histOp{Op: fop, Call: last + 1, Return: last + 2, Out: fo.String(), Points: []string{"(after all others had returned)"}})
+		pops = append(pops, porcupine.Operation{ClientId: len(res), Input: histIn{"get", 0}, Call: last + 1, Output: fo, Return: last + 2})
+		if fo.Torn != "" {
+			return hist, overlap, fmt.Errorf("torn read: the read after the race returns %s (initial state w%d)", fo.Torn, c.Initial)
+		}
 	}
 	render := func() string {
 		var sb strings.Builder
@@ -455,7 +475,7 @@ func caseGen() *rapid.Generator[caseA] {
 		readers := 0
 		for i := 0; i < n; i++ {
 			var o op
-			o.Kind = rapid.SampledFrom([]string{"put", "put", "mpu", "copy", "delete", "get", "getsum", "getsum", "head"}).Draw(t, "kind")
+			o.Kind = rapid.SampledFrom([]string{"put", "put", "mpu", "copy", "delete", "get", "getsum", "getsum", "head", "put", "put", "mpu", "copy", "delete", "get", "getsum", "getsum", "head", "putparent"}).Draw(t, "kind")
 			if i == n-1 && readers == 0 {
 				o.Kind = rapid.SampledFrom([]string{"getsum", "getsum", "get", "head"}).Draw(t, "reader")
 			}
@@ -474,6 +494,19 @@ func caseGen() *rapid.Generator[caseA] {
 			c.Ops = append(c.Ops, o)
 		}
 		c.Schedule = rapid.SliceOfN(rapid.IntRange(0, 5), 0, 120).Draw(t, "schedule")
+		if rapid.IntRange(0, 9).Draw(t, "parent_race") == 0 {
+			// the key does not exist yet and neither does its directory: an upload to the directory's name pauses somewhere
+			// while uploads of the key go through
+			c.Initial = 0
+			c.Ops[0] = op{Kind: "putparent", Proc: c.Ops[0].Proc}
+			if c.Ops[1].Kind != "put" && c.Ops[1].Kind != "mpu" && c.Ops[1].Kind != "copy" {
+				c.Ops[1] = op{Kind: "put", W: 1, Proc: c.Ops[1].Proc}
+			}
+			c.Stall, c.StallAt = make([]int, n), make([]int, n)
+			c.Stall[0] = 200
+			c.StallAt[0] = rapid.IntRange(0, 6).Draw(t, "parent_stall_at")
+			return c
+		}
 		if rapid.IntRange(0, 2).Draw(t, "stalling") == 0 {
 			// one operation (mostly a reader) pauses after some of its steps until the others are through
 			i := rapid.IntRange(0, n-1).Draw(t, "stall_op")
